@@ -215,6 +215,7 @@ func verifInitInvoke(nExt int, subs []string, nInv int, nInt int) {
 		verifAssert(len(w.iop.responses) == k && w.iop.responses[k-1] == id+":"+w.rtResponses[k-1], "the runtime's response body reaches the platform unchanged for this invocation")
 	}
 	_ = initEnd
+	w.CheckEventGrammar()
 	verifReach("done")
 }
 
